@@ -316,7 +316,12 @@ fn do_quote(w: &mut World, qs: &mut QState, st: &Value) -> Value {
         if (!su && i >= n) || (!eu && j >= n) {
             return Err("range outside the source".into());
         }
-        let (oi, oj) = (bi.2, bj.2);
+        // the API offset of a bound: a bytes document addresses a character by the offset of its first byte (any other
+        // offset is not a character boundary); a UTF-16 document addresses code units, so a bound that takes the character
+        // on its far side (exclusive start, inclusive end) names the character's LAST unit - never half a pair
+        let utf16 = w.offset == yrs::OffsetKind::Utf16;
+        let oi = if utf16 && !si { bi.2 + (bi.1 - bi.0) } else { bi.2 };
+        let oj = if utf16 && ei { bj.2 + (bj.1 - bj.0) } else { bj.2 };
         let range: (Bound<u32>, Bound<u32>) = (
             if su { Bound::Unbounded } else if si { Bound::Included(oi) } else { Bound::Excluded(oi) },
             if eu { Bound::Unbounded } else if ei { Bound::Included(oj) } else { Bound::Excluded(oj) },
